@@ -1,6 +1,6 @@
 (* C11 — per-fold score calibration.  Statements only; proofs in Proofs/CalibrateP.v
    (and Proofs/BrewP.v for the per-fold statement). *)
-From Mokaverif Require Import Model.Base Model.Tdc Model.Calibrate Model.Brew Proofs.TdcP Proofs.CalibrateP Proofs.BrewP.
+From Mokaverif Require Import Model.Base Model.Tdc Model.Calibrate Model.CalibrateD Model.Brew Proofs.TdcP Proofs.CalibrateP Proofs.CalibrateDP Proofs.BrewP.
 Open Scope Z_scope.
 
 (* the returned scores are cal_map t d applied to the raw scores, where t is the lowest raw score
@@ -55,6 +55,35 @@ Theorem C11_per_fold : forall k thr fold_of targets raw,
 Proof. exact predict_per_fold. Qed.
 Print Assumptions C11_per_fold.
 
+
+(* calibrate_scores takes the ranking direction [desc] (brew always uses desc = true): the model with the
+   argument, Model/CalibrateD.v, is the model above at desc = true, and for either direction the result is
+   cal_map t d of the raw scores with t the lowest raw score among the targets accepted by the competition
+   run in that direction and d the decoy median — [desc] reaches the labels and nothing else *)
+Theorem C11_desc_true : forall scores targets thr,
+  calibrate_d true scores targets thr = calibrate scores targets thr.
+Proof. exact calibrate_d_true. Qed.
+Print Assumptions C11_desc_true.
+
+Theorem C11_calibrate_desc_spec : forall desc scores targets thr ys,
+  calibrate_d desc scores targets thr = Ok ys ->
+  exists labels t d,
+    update_labels desc scores targets thr = Ok labels /\
+    (exists i, (i < length scores)%nat /\ nth i labels 0 = 1 /\ nth i scores 0 = t) /\
+    (forall i, (i < length scores)%nat -> nth i labels 0 = 1 -> t <= nth i scores 0) /\
+    cal_median (cal_select (map (fun l => l =? -1) labels) scores) = Some d /\
+    ~ (inject_Z t == d)%Q /\
+    ys = map (fun s => cal_map (inject_Z t) d (inject_Z s)) scores.
+Proof. exact calibrate_d_spec. Qed.
+Print Assumptions C11_calibrate_desc_spec.
+
+Theorem C11_desc_error : forall desc scores targets thr labels,
+  update_labels desc scores targets thr = Ok labels ->
+  (forall i, (i < length scores)%nat -> nth i labels 0 <> 1) ->
+  calibrate_d desc scores targets thr = Err ERuntime.
+Proof. exact calibrate_d_error. Qed.
+Print Assumptions C11_desc_error.
+
 (* non-vacuity *)
 Example C11_example :
   match calibrate [10;9;8;3;2;1] [true;true;true;false;false;false] (1#2)%Q with
@@ -63,4 +92,15 @@ Example C11_example :
   end /\
   calibrate [1;2;3] [false;false;true] (1#100)%Q = Err ERuntime /\
   calibrate [5;4] [true;true] (1#1)%Q = Err EType.
+Proof. vm_compute. repeat split. Qed.
+
+(* ascending direction: the accepted targets are the low-scoring ones, t = 1 is their minimum, the decoy
+   median 9 lies above it, so the map is decreasing (outside the property's quantifier d < t) *)
+Example C11_example_asc :
+  match calibrate_d false [1;2;3;8;9;10] [true;true;true;false;false;false] (1#2)%Q with
+  | Ok ys => map Qred ys = [0; (-1#8); (-1#4); (-7#8); (-1#1); (-9#8)]%Q
+  | Err _ => False
+  end /\
+  calibrate_d false [5;4] [true;true] (1#1)%Q = Err EType /\
+  calibrate_d false [1;2;3] [false;false;true] (1#100)%Q = Err ERuntime.
 Proof. vm_compute. repeat split. Qed.
